@@ -384,6 +384,42 @@ def c19_prefix_chunk(arg):
     return recs
 
 
+FIELD_KINDS = ("magic", "size", "flag", "page")
+QUICK_VALUES = (0, 1, 2, 3, 4, 5, 8, 16, 0x3F, 0x40, 0x7F, 0x80, 0x81, 0xC0, 0xFE, 0xFF)
+
+
+def field_sweep_tasks(tier):
+    """Enumeration: every header byte of kind magic/size/flag/page of each sweep file set to
+    each value of a list (quick: 16 boundary values; thorough: all 256, palette bytes too)."""
+    tasks = []
+    for ci, c in enumerate(minimal_cases()[:11]):
+        kinds = FIELD_KINDS + (("pal",) if tier == "thorough" else ())
+        offs = [o for o, k in c.smap if k in kinds][:24 if tier == "quick" else 64]
+        vals = QUICK_VALUES if tier == "quick" else tuple(range(256))
+        per = 4 if len(c.data) > 2000 else 16
+        for a in range(0, len(offs), per):
+            tasks.append((ci, offs[a:a + per], vals))
+    return tasks
+
+
+def c19_field_chunk(arg):
+    ci, offs, vals = arg
+    warm()
+    case = minimal_cases()[ci]
+    recs = []
+    env = Env()
+    for o in offs:
+        for v in vals:
+            if case.data[o] == v:
+                continue
+            plan = [{"kind": "set", "at": o, "val": v}]
+            data, dmg, eff, run, verdict, cls = c19_execute(case, plan, env)
+            recs.append({"ci": ci, "k": o, "v": v, "tool": case.tool, "verdict": verdict, "cls": cls,
+                         "site": run.signature_site(), "env": env.key(), "steps": run.steps,
+                         "digest": run.digest()})
+    return recs
+
+
 # ----------------------------------------------------------------------------- fidelity
 def real_cli(tool, opts, data, env, tmpdir):
     """Run the real CLI with real files and a real pipe; returns (success, out_bytes|None)."""
